@@ -174,6 +174,32 @@ Definition ev_eqb (a b : ev) : bool :=
   | _, _ => false
   end.
 
+(* ---------- single-position edits of the fields (near-collisions) ----------
+   Used by the theorems "the cache key changes whenever a single digit of a single field
+   changes" (Props/C37.v); the driver delivers such pairs of events on every run.
+   [get_nibble l i] / [set_nibble l i v]: hex digit i (0 = first) of a byte string as rendered by
+   hex.EncodeToString; [Z_nibble z i] / [Z_set_nibble z i v]: hex digit i (0 = last) of |z|;
+   [N_digit b i] / [N_set_digit b i v]: decimal digit i (0 = last) of a block number. *)
+Fixpoint get_nibble (l : list N) (i : nat) : option N :=
+  match l, i with
+  | [], _ => None
+  | b :: _, O => Some (b / 16)%N
+  | b :: _, S O => Some (b mod 16)%N
+  | _ :: t, S (S j) => get_nibble t j
+  end.
+Fixpoint set_nibble (l : list N) (i : nat) (v : N) : list N :=
+  match l, i with
+  | [], _ => []
+  | b :: t, O => (16 * v + b mod 16)%N :: t
+  | b :: t, S O => (16 * (b / 16) + v)%N :: t
+  | b :: t, S (S j) => b :: set_nibble t j v
+  end.
+Definition Z_nibble (z : Z) (i : N) : Z := (Z.abs z / 16 ^ Z.of_N i) mod 16.
+Definition Z_set_nibble (z : Z) (i : N) (v : Z) : Z :=
+  let m := Z.abs z + (v - Z_nibble z i) * 16 ^ Z.of_N i in if z <? 0 then - m else m.
+Definition N_digit (b : N) (i : N) : N := ((b / 10 ^ i) mod 10)%N.
+Definition N_set_digit (b : N) (i : N) (v : N) : N := (b - N_digit b i * 10 ^ i + v * 10 ^ i)%N.
+
 (* compact rendering of byte strings in case terms: [H "01ff"] = [1; 255]; a malformed string
    yields a list that fails [bytes32] *)
 Definition hex_val (c : ascii) : option N :=
